@@ -705,6 +705,28 @@ def units(tier):
     return us
 
 
+def cofactor_rule(rep, u, fname="ecdsa_dh"):
+    """Cofactor Diffie-Hellman multiplies the *point* by h*d so that a peer point outside the order-n subgroup is mapped to
+    O (or into the subgroup).  h*d may therefore not be reduced modulo n: for a point of order 2 or 4n, ((h*d) mod n)*Q
+    differs from h*d*Q.  Every use of curve->h in the routine is outside a reduction modulo curve->n."""
+    fn = u.fn(fname)
+    if fn is None or not fn.has_cfg:
+        raise driver.AnalysisBroken("anchor %s vanished" % fname)
+    rep.functions.add(fname)
+    n = 0
+    for pos, root, c, ps in fn.calls():
+        if not any(x.get("k") == "mem" and x.get("f") == "h" for a in c.get("args", []) for x, _ in walk(a)):
+            continue
+        n += 1
+        modn = (c.get("fn") or "").startswith("bn_mod_") and any(x.get("k") == "mem" and x.get("f") == "n" for a in c["args"] for x, _ in walk(a))
+        desc = "%s: the cofactor is applied without reducing h*d modulo the group order" % fname
+        (rep.violated if modn else rep.proved)(
+            "R-DOMAIN", fn, "cofactor-use#%d" % n, desc,
+            "%s(..., curve->h, &curve->n, ...) at line %s: for a peer point whose order does not divide n the product is not h*d*Q "
+            "(an order-2 point yields a 'shared secret' instead of failure)" % (c.get("fn"), c.get("ln")) if modn else "%s" % c.get("fn"), c.get("ln"))
+    return n
+
+
 def run(rep, tier):
     us = driver.load_units(units(tier))
     rep.use_units(us)
@@ -737,6 +759,7 @@ def run(rep, tier):
     # compressed keys are restored with bn_mod_sqrt: its non-residue search must not give up because the operand is small
     from props import c01
     c01.search_budget_rule(rep, us["ecdsa:default"])
+    rep.floor("cofactor uses in ecdsa_dh", cofactor_rule(rep, us["ecdsa:default"]), 1)
     rep.floor("bounded reads/writes decided", nb, 60)
     rep.floor("codec layouts and importer arms evaluated", nc, 200)
     rep.floor("validation obligations", nv, 10)
